@@ -6,24 +6,27 @@ from seq_common import replay_seq
 PROPERTY = 'C13'
 PROPS = ['SalsaVerif.Props.C13']
 KNOWN = ('fb-participant-after-revalidated-head', 'fix-participant-stale-after-revalidation')
-EXPLANATION = ('Theorems about the Lean cycle model for programs whose cycle members use cycle_result: every memo is either the fallback value '
-               'WITH a witness that the node reaches itself in the input-determined call graph, or its body over the results '
-               '(`c13_participants_partial`), a node on no cycle gets its body over those results (`c13_outside`, full), no iteration happens, '
-               'results do not mention the entry (`c13_entry_independent_partial`). The converse ("every node on a cycle gets its fallback") is '
-               'proved for direct calls of an active query only; the general DFS/SCC completeness argument is NOT yet proved. Tied to salsa '
-               'by generated fallback programs x histories compared with the Lean model and with an independent SCC oracle; the known '
-               'history-dependence finding (kf1) is reported as KNOWN-FINDING.')
-ASSUMPTIONS = ['the "if on a cycle then fallback" direction is partial in Lean; it is checked by the SCC oracle on every generated case',
-               'known finding: fb-participant-after-revalidated-head (later revisions only)']
+EXPLANATION = ('Theorems about the Lean cycle model for programs whose cycle members use cycle_result, for ANY entry node and ANY history of requests '
+               'in a revision: a memoised fallback node holds its fallback value IFF it lies on a cycle of the input-determined call graph, '
+               'otherwise its body over the results (`c13_participants`, both directions; head sets are proved complete: every active query '
+               'reachable through non-active nodes is a head); nodes on no cycle get their body over those results (`c13_outside`); no iteration '
+               'happens; two different request histories give every commonly memoised node the same value (`c13_entry_independent`) and that '
+               'value is the executable SCC reference (`c13_reference`, Boolean reachability proved complete: `c13_onCycle_iff`). The model '
+               'drops all memos at a write, so histories ACROSS revisions are covered by the oracle only. Tied to salsa by generated fallback '
+               'programs x histories compared with the Lean model and with an independent SCC oracle; the known history-dependence finding '
+               '(kf1, later revisions only) is reported as KNOWN-FINDING.')
+ASSUMPTIONS = ['`c13_entry_independent` / `c13_reference` assume every node on a cycle is a fallback node (no `panic` member on a cycle)',
+               'cross-revision reuse is not in the Lean model; known finding fb-participant-after-revalidated-head lives there (key narrowed: '
+               'the requested node must lie on, or reach, a cycle under the current inputs)']
 
 def ties(ctx):
-    n = 1500 if ctx.tier == 'quick' else 100000
+    n = 8000 if ctx.tier == "quick" else 150000
     return [run_cycle(ctx, n, known_keys=KNOWN, flavours='1', corpus='C13')]
 
 def search(ctx, reason):
     t = run_cycle(ctx, 200000, known_keys=KNOWN, flavours='1', seed_offset=97, tag='search-cycle')
     for f in t.failures:
-        if f.kind == 'oracle' and f.key not in KNOWN:
+        if f.kind == 'oracle' and f.key not in KNOWN and f.key not in listed_keys():
             return f
     return None
 
